@@ -1773,6 +1773,10 @@ class CallableValue(TypedValue):
                 return CanAssignError(f"{other} is not a callable type")
             if isinstance(signature, pyanalyze.signature.BoundMethodSignature):
                 signature = signature.get_signature(ctx=ctx)
+                if signature is None:
+                    # The method has no parameter that can receive the instance,
+                    # so no call through the instance can succeed.
+                    return CanAssignError(f"{other} is missing a 'self' argument")
             if isinstance(
                 signature,
                 (
